@@ -906,7 +906,11 @@ func (ex *Exec) callValue(st *State, fn FuncV, args []Value, retTo ssa.Value, si
 		}
 	}
 	if h := ex.harnessIntrinsic(f); h != nil {
-		finish(h(ex, st, args, site))
+		res := h(ex, st, args, site)
+		if _, ok := res.(pushed); ok {
+			return
+		}
+		finish(res)
 		return
 	}
 	if isReflectIntercept(f) {
